@@ -395,7 +395,8 @@ SUBS = [
     Sub("predict", predict_case(), run_predict,
         "generated tempo polyco texts (1..6 entries, NCOEFF in {2,3,4,5,7,12,13,15}, e/E/D/d exponents, signed coefficients, span 15..1440 min, "
         "F0 0.1..1000 Hz, RPHASE to 1e12, contiguous/overlapping/gapped spans incl. sub-ms gaps; StringIO or file; table/text subsets); scalar, "
-        "1-d, 2-d and column arrays of times at span edges and inside; phase, f0 and derivatives, phasepol, intervals, refusals, repeatability; "
+        "1-d, 2-d and column arrays of times at span edges and inside; phase, f0 and derivatives, phasepol, intervals, refusals, repeatability, the same "
+        "Time array object passed again after editing an element in place; "
         "non-trivial = >= 2 entries, a time farther than span/8 from TMID, and (NCOEFF % 3 != 0 or D exponents)",
         quick=1500, thorough=20000, pieces_quick=6),
     Sub("time_at", timeat_case(), run_timeat,
